@@ -1,6 +1,7 @@
 package main
 
 import (
+	"fmt"
 	"go/constant"
 	"go/token"
 	"go/types"
@@ -22,6 +23,60 @@ func restoreReachers(p *Prog) map[*ssa.Function]bool {
 		}
 	}
 	return p.modReachers(fns...)
+}
+
+var sentinelDone = map[*ssa.Function]bool{}
+
+// checkSentinelRecognises: the already-patched test, evaluated abstractly on what the entry-jump emitter produces (for all
+// addresses at once), answers true on every path: a function that carries goom's jump is always recognised, so its jump is
+// never captured as "original bytes".
+func checkSentinelRecognises(c *Ctx, p *Prog, r *Report, sf *ssa.Function, cfg string) {
+	gen := jumpGenerator(p)
+	if gen == nil || sf.Blocks == nil || len(sf.Params) != 1 {
+		r.Und("C02.R1", "sentinel test recognises the entry jump", p.Pos(sf.Pos()), "entry-jump generator or sentinel body not found")
+		return
+	}
+	var ems []*ssa.Function
+	for _, ret := range returnsOf(gen) {
+		for _, a := range origins(retResult(ret, 0)) {
+			if cl, ok := a.V.(*ssa.Call); ok {
+				if em := staticCallee(cl.Common()); em != nil && relPkg(em) == "internal/patch" && em.Blocks != nil {
+					ems = append(ems, em)
+				}
+			}
+		}
+	}
+	if len(ems) == 0 {
+		r.Und("C02.R1", "sentinel test recognises the entry jump", p.Pos(sf.Pos()), "the entry-jump emitter was not identified")
+		return
+	}
+	for _, em := range ems {
+		okAll, why := true, ""
+		n := 0
+		for _, e := range emit(em) {
+			if e.Err != "" || len(e.Bytes) == 0 {
+				okAll, why = false, "emitter not evaluable: "+e.Err
+				continue
+			}
+			bk := &backing{b: append([]AByte(nil), e.Bytes...)}
+			ai := &absInterp{}
+			for _, po := range ai.evalFunc(sf, []aval{ASlice{bk: bk, off: 0, len: len(bk.b), cap: len(bk.b)}}, nil) {
+				n++
+				if po.err != "" {
+					okAll, why = false, "evaluation of the test fails ("+po.err+")"
+					continue
+				}
+				if b, ok := po.val.(ABool); !ok || !b.Known || !b.Val {
+					okAll, why = false, "the test answers 'not patched' (or depends on the address) for bytes "+bytesString(e.Bytes)
+				}
+			}
+			if ai.procErr != "" {
+				okAll, why = false, ai.procErr
+			}
+		}
+		r.Check(okAll && n > 0, "C02.R1", "sentinel test "+shortName(sf)+" recognises what "+shortName(em)+" emits", p.Pos(sf.Pos()), fmt.Sprintf("true on all %d paths, for every address", n),
+			"the already-patched test does not recognise goom's own entry jump ("+why+"): re-applying a mock captures the jump as 'original bytes', and Reset then writes a jump back")
+	}
 }
 
 func c02(c *Ctx) {
@@ -306,6 +361,18 @@ func c02(c *Ctx) {
 					for _, a := range gc.Call.Args {
 						if resolveLocal(a) == ssa.Value(rd) {
 							okSent = true
+						}
+					}
+				}
+			}
+			if okSent && !sentinelDone[reader] {
+				sentinelDone[reader] = true
+				for _, g := range guardsAt(ret.Block()) {
+					if gc, ok := g.Cond.(*ssa.Call); ok && !g.Pol {
+						if sf := staticCallee(gc.Common()); sf != nil {
+							// (amd64 only: the arm64 entry jump carries no leading NOP, there the table lookup of R2 alone keeps a
+							// jump from being captured; see DESIGN.md §3 C02)
+							checkSentinelRecognises(c, p, r, sf, "linux/amd64")
 						}
 					}
 				}
